@@ -13,13 +13,18 @@ PROP = "C01"
 ENGINE = "tok"
 HAS_MODEL = True
 USES_TRANSLATOR = False
-LEAN_TARGETS = ["H5V.Props.C01"]
-AUDIT_IMPORTS = ["H5V.Props.C01"]
+LEAN_TARGETS = ["H5V.Props.C01", "H5V.Props.C01Sim"]
+AUDIT_IMPORTS = ["H5V.Props.C01", "H5V.Props.C01Sim"]
 THEOREMS = ["H5V.Props.C01." + t for t in [
     "C01_spec_total", "C01_spec_single_eof", "C01_spec_step_measure", "C01_spec_run_steps",
     "C01_normalizeNewlines_no_cr", "C01_normalizeNewlines_idempotent", "C01_normalizeNewlines_id_of_no_cr",
     "C01_normalizeNewlines_length_le", "C01_dedupAttrs_nodup", "C01_dedupAttrs_sublist",
-    "C01_dedupAttrs_first_wins", "C01_currentTag_names_nodup"]]
+    "C01_dedupAttrs_first_wins", "C01_currentTag_names_nodup",
+    # MODEL = SPEC for every input (Props/C01Sim.lean; simulation relation Rel through all state groups, look-aheads,
+    # character references, EOF): tokens of the model of html5ever's tokenizer = tokens of the transcription of 13.2.5
+    "C01_model_eq_spec", "C01_model_eq_spec_merged", "C01_model_eq_spec_exact", "C01_model_eq_spec_chunked",
+    "C01_sim_initial", "C01_sim_step", "C01_sim_run", "C01_sim_finish", "modelTokens_eq_spec", "polE_of_polTree",
+    "exPolTree", "histPolTree"]]
 TRUSTED = [
     "Lean 4 kernel; axioms ⊆ {propext, Classical.choice, Quot.sound} (audited per run)",
     "lean/H5V/Spec/HtmlTokenizer.lean is a hand transcription of HTML Standard §13.2.5 written from memory of the "
@@ -28,13 +33,14 @@ TRUSTED = [
     "harness/src/engines/tok.rs (recording TokenSink, policy replay) and the printing code shared with the model driver",
 ]
 ASSUMPTIONS = [
-    "the equality 'html5ever tokenizer = WHATWG algorithm for ALL inputs' is not a Lean theorem: it is decided by "
-    "differential testing of the real code against the executable specification on the exhaustive state × "
-    "character-class × suffix cover and seeded soup of this run",
-    "RawEndTagOpen/RawEndTagName(ScriptDataEscaped(DoubleEscaped)) have no counterpart among the 80 states of the "
-    "standard (unreachable except through TokenizerOpts.initial_state): excluded from the comparison",
-    "runs started in a mid-token state begin with empty token registers; an attribute without a name (possible only "
-    "when started inside an attribute value state) is not part of the emitted tag",
+    "C01_model_eq_spec is about the MODEL (lean/H5V/Model/HtmlTok.lean); the real tokenizer is tied to the model by the tok "
+    "correspondence and is ALSO compared directly with the executable specification on every case of this run",
+    "hypotheses of C01_model_eq_spec: PolTree pol tree (the sink's answers = the specification's tree-construction feedback, "
+    "as functions of the token history; no Script / EncodingIndicator pauses) and StartOk st: 65 of the 73 start states - "
+    "excluded are RawEndTagOpen/RawEndTagName(ScriptDataEscaped(DoubleEscaped)), which have no counterpart among the 80 "
+    "states of the standard (unreachable except through TokenizerOpts.initial_state), and the six attribute-name/value "
+    "states, where a run started mid-attribute has an attribute without a name (not part of the emitted tag)",
+    "the specification lean/H5V/Spec/HtmlTokenizer.lean is a transcription from memory of the standard's text",
 ]
 RULE = ("every html5ever start state × 41 character classes (+EOF) × 6 suffixes, the three last-start-tag relations for "
         "raw end-tag states, both CDATA answers, look-ahead keyword families (state × ordered pairs over a reduced "
@@ -45,9 +51,10 @@ RULE = ("every html5ever start state × 41 character classes (+EOF) × 6 suffixe
         "Comparison: implementation tokens with parse errors, pause markers and line numbers removed and character "
         "tokens re-merged == tokens of the WHATWG specification. non-trivial = at least one token besides EOF; "
         "distinct = distinct (case, output)")
-EXPLANATION = ("theorems are about the specification itself (totality within the stated fuel, exactly one EOF, newline "
-               "normalisation, attribute de-duplication); conformance of the real tokenizer is decided case by case "
-               "against the executable specification")
+EXPLANATION = ("C01_model_eq_spec: for every input, start state (65/73), last start tag, BOM option, exact_errors value, chunking "
+               "and history-dependent sink policy the model's tokens equal the specification's; theorems about the "
+               "specification itself (total, one EOF last, newline normalisation, attribute de-duplication); the real "
+               "tokenizer is compared case by case with both the model and the executable specification")
 
 BOUNDARY_INPUTS = [
     "<!DOCTYPE html\r\nPUBLIC 'x'\r\n'y'>", "<p>a﻿b", "﻿x", "﻿﻿x", "<a b=\r\n\r\"x\r\ny\">", "<!--a\r\n-\r->b-->",
